@@ -453,33 +453,32 @@ def RemRec (c : List Block) (x : Block) (d : Disk) : Prop := RecTo d c ∨ Chain
 /-- `remove x`, started either on the clean chain `x :: c` (reorg) or on any `Pending c x` disk
     (start-up repair). Alive at the end: every write but the last brought the disk to stage 4, the
     last one erased the remove mark. -/
-theorem remove_core {s : St} {x : Block} {c : List Block} {am : Option Block} (ha : s.crashed = false)
-    (start : (ChainInv s.disk (x :: c) ∧ c ≠ [] ∧ am = none) ∨ (Pending s.disk c x ∧ s.disk.addMark = am)) :
+theorem remove_core {s : St} {x : Block} {c : List Block} {am : Option Block} {R : Disk → Prop}
+    (ha : s.crashed = false)
+    (start : (ChainInv s.disk (x :: c) ∧ c ≠ [] ∧ am = none) ∨ (Pending s.disk c x ∧ s.disk.addMark = am))
+    (hR0 : R s.disk) (hR : ∀ d, RecTo d c → R d) :
     Out (fun d m => (∃ d4, RemStage s.disk am c x 4 d4 ∧ d = d4.apply .delRemoveMark) ∧
           (∃ y, c.head? = some y ∧ m.latest = y) ∧ m.top = upd s.mem.top x.height none ∧
           m.future = s.mem.future ∧ (∀ t ∈ s.mem.pending, t ∈ m.pending) ∧ Unmarked x d m)
-        (RemRec c x) (remove s x).1 := by
+        R (remove s x).1 := by
   let d0 := s.disk
   let m0 := s.mem
-  have h0 : Out (fun d m => d = d0 ∧ m = m0) (RemRec c x) s := Out.alive ha ⟨rfl, rfl⟩
-  have h1 : Out (fun d m => RemStage d0 am c x 0 d ∧ m = m0) (RemRec c x) (s.write (.putRemoveMark x)) := by
+  have h0 : Out (fun d m => d = d0 ∧ m = m0) R s := Out.alive ha ⟨rfl, rfl⟩
+  have h1 : Out (fun d m => RemStage d0 am c x 0 d ∧ m = m0) R (s.write (.putRemoveMark x)) := by
     refine h0.write _ (fun d m p => ⟨?_, p.2⟩) (fun d m p => ?_)
     · rw [p.1]
       rcases start with ⟨ci, hc, e⟩ | ⟨pp, e⟩
       · rw [e]; exact RemStage.start ci hc
       · rw [← e]; exact RemStage.start_pending pp
-    · rw [p.1]
-      rcases start with ⟨ci, _, _⟩ | ⟨pp, _⟩
-      · exact Or.inr ci
-      · exact Or.inl (Or.inr ⟨x, pp⟩)
+    · rw [p.1]; exact hR0
   have h2 := h1.write (.delBlock x.hash) (Q := fun d m => RemStage d0 am c x 1 d ∧ m = m0)
-    (fun d m p => ⟨p.1.s1, p.2⟩) (fun d m p => Or.inl p.1.recTo)
+    (fun d m p => ⟨p.1.s1, p.2⟩) (fun d m p => hR _ p.1.recTo)
   have h3 := h2.write (.delHeight x.height) (Q := fun d m => RemStage d0 am c x 2 d ∧ m = m0)
-    (fun d m p => ⟨p.1.s2, p.2⟩) (fun d m p => Or.inl p.1.recTo)
+    (fun d m p => ⟨p.1.s2, p.2⟩) (fun d m p => hR _ p.1.recTo)
   have h4 := h3.write (.delVerify x.height) (Q := fun d m => RemStage d0 am c x 3 d ∧ m = m0)
-    (fun d m p => ⟨p.1.s3, p.2⟩) (fun d m p => Or.inl p.1.recTo)
+    (fun d m p => ⟨p.1.s3, p.2⟩) (fun d m p => hR _ p.1.recTo)
   have hA : Out (fun d m => RemStage d0 am c x 3 d ∧ m.top = upd m0.top x.height none ∧ m.latest = m0.latest ∧
-      m.future = m0.future ∧ m.pending = m0.pending) (RemRec c x) (removeA s x) := by
+      m.future = m0.future ∧ m.pending = m0.pending) R (removeA s x) := by
     unfold removeA
     refine h4.setMem _ ?_
     intro p
@@ -492,7 +491,7 @@ theorem remove_core {s : St} {x : Block} {c : List Block} {am : Option Block} (h
     rw [hpre]
     simp only
     have hA' : Out (fun d m => RemStage d0 am c x 3 d ∧ m.top = upd m0.top x.height none ∧ m.latest = m0.latest ∧
-      m.future = m0.future ∧ m.pending = m0.pending) (RemRec c x) (removeA s x) := Out.alive alive pA
+      m.future = m0.future ∧ m.pending = m0.pending) R (removeA s x) := Out.alive alive pA
     unfold removeB
     have hB1 := hA'.setMem { (removeA s x).mem with latest := y }
       (Q := fun d m => RemStage d0 am c x 3 d ∧ m.top = upd m0.top x.height none ∧ m.latest = y ∧
@@ -502,9 +501,9 @@ theorem remove_core {s : St} {x : Block} {c : List Block} {am : Option Block} (h
       (Q := fun d m => RemStage d0 am c x 4 d ∧ m.top = upd m0.top x.height none ∧ m.latest = y ∧
         m.future = m0.future ∧ (∀ t ∈ m0.pending, t ∈ m.pending))
       (fun d m p => ⟨p.1.s4 hy, p.2.1, p.2.2.1, p.2.2.2.1, by intro t ht; rw [p.2.2.2.2]; exact ht⟩)
-      (fun d m p => Or.inl p.1.recTo)
+      (fun d m p => hR _ p.1.recTo)
     have hB3 : Out (fun d m => (RemStage d0 am c x 4 d ∧ m.top = upd m0.top x.height none ∧ m.latest = y ∧
-        m.future = m0.future ∧ (∀ t ∈ m0.pending, t ∈ m.pending)) ∧ Unmarked x d m) (RemRec c x)
+        m.future = m0.future ∧ (∀ t ∈ m0.pending, t ∈ m.pending)) ∧ Unmarked x d m) R
         (unmark (((removeA s x).setMem { (removeA s x).mem with latest := y }).write (.putCurrent y)) x) := by
       unfold unmark
       by_cases he : x.txs.isEmpty = true
@@ -515,7 +514,7 @@ theorem remove_core {s : St} {x : Block} {c : List Block} {am : Option Block} (h
         rw [this] at ht; cases ht
       · simp only [he]
         have hD := Out.delExecs x.txs hB2
-          (fun t d m p => ⟨p.1.delExec t, p.2⟩) (fun d m p => Or.inl p.1.recTo)
+          (fun t d m p => ⟨p.1.delExec t, p.2⟩) (fun d m p => hR _ p.1.recTo)
         refine hD.setMem _ ?_
         intro p
         refine ⟨⟨p.1.1, p.1.2.1, p.1.2.2.1, p.1.2.2.2.1, ?_⟩, ?_⟩
@@ -523,7 +522,7 @@ theorem remove_core {s : St} {x : Block} {c : List Block} {am : Option Block} (h
           exact addPending_sub _ _ _ t (p.1.2.2.2.2 t ht)
         · intro t ht
           exact ⟨p.2 t ht, addPending_mem _ _ _ p.2 t ht⟩
-    refine (hB3.write .delRemoveMark ?_ (fun d m p => Or.inl p.1.1.recTo))
+    refine (hB3.write .delRemoveMark ?_ (fun d m p => hR _ p.1.1.recTo))
     intro d m p
     obtain ⟨⟨st, htop, hlat, hfut, hpend⟩, hun⟩ := p
     refine ⟨⟨d, st, rfl⟩, ⟨y, hy, hlat⟩, htop, hfut, hpend, ?_⟩
@@ -540,7 +539,8 @@ theorem remove_spec {T : Nat → Option Block} {s : St} {x : Block} {c : List Bl
     (inv : Inv T s.disk s.mem (x :: c)) (hc : c ≠ []) :
     Out (fun d m => Inv T d m c ∧ Unmarked x d m ∧ (∀ t ∈ s.mem.pending, t ∈ m.pending) ∧ m.future = s.mem.future)
         (RemRec c x) (remove s x).1 := by
-  refine (remove_core (am := none) ha (Or.inl ⟨inv.chain, hc, rfl⟩)).mono ?_ (fun _ r => r)
+  refine (remove_core (am := none) (R := RemRec c x) ha (Or.inl ⟨inv.chain, hc, rfl⟩) (Or.inr inv.chain)
+    (fun d r => Or.inl r)).mono ?_ (fun _ r => r)
   intro d m p
   obtain ⟨⟨d4, st, hd⟩, ⟨y, hy, hlat⟩, htop, hfut, hpend, hun⟩ := p
   subst hd
